@@ -96,6 +96,7 @@ Section Doc.
   Qed.
 
   Section Tokens.
+  Context {fx : FxEscape}.
   Variable gbk : list N -> Z.
 
   (* start and end of a short string without escape and line end *)
